@@ -29,20 +29,20 @@ T      == Batch[tid]
 Ev     == T.events[l + 1]
 More   == l < Len(T.events)
 
-CfOf(t) == [obf |-> t.cf.obf, host |-> t.cf.host, mac |-> t.cf.mac, kws |-> Rng(t.cf.kws), pats |-> Rng(t.cf.pats),
+CfOf(t) == [obf |-> t.cf.obf, host |-> t.cf.host, mac |-> t.cf.mac, v6 |-> t.cf.v6, kws |-> Rng(t.cf.kws), pats |-> Rng(t.cf.pats),
             regex |-> t.cf.regex, sysdom |-> t.cf.sysdom, fam |-> t.cf.fam]
-SpOf(s) == [nored |-> s.nored, noobf |-> Rng(s.noobf), width |-> s.width, allow |-> s.allow]
+SpOf(s) == [nored |-> s.nored, noobf |-> Rng(s.noobf), width |-> s.width, allow |-> s.allow]     \* (s.nak: keys of the list, driver only)
 ContentOf(t) == IF t.mode = "runs"
                   THEN [s \in DOMAIN t.content |-> [sp |-> SpOf(t.content[s].sp), lines |-> t.content[s].lines]]
                   ELSE <<>>
 
 InitFrom(t) ==
     /\ phase = "idle" /\ cf = CfOf(t) /\ ord = <<>> /\ run = 1 /\ content = ContentOf(t) /\ si = 0
-    /\ cur = [i |-> 0, acc |-> <<>>, bud |-> 0] /\ db = <<>> /\ seen = {} /\ cnt = 0 /\ outs = <<>>
+    /\ cur = [i |-> 0, acc |-> <<>>, bud |-> <<>>] /\ db = <<>> /\ seen = {} /\ cnt = 0 /\ outs = <<>>
     /\ report = {} /\ runs = <<>> /\ selfs = {}
 NextFrom(t) ==
     /\ phase' = "idle" /\ cf' = CfOf(t) /\ ord' = <<>> /\ run' = 1 /\ content' = ContentOf(t) /\ si' = 0
-    /\ cur' = [i |-> 0, acc |-> <<>>, bud |-> 0] /\ db' = <<>> /\ seen' = {} /\ cnt' = 0 /\ outs' = <<>>
+    /\ cur' = [i |-> 0, acc |-> <<>>, bud |-> <<>>] /\ db' = <<>> /\ seen' = {} /\ cnt' = 0 /\ outs' = <<>>
     /\ report' = {} /\ runs' = <<>> /\ selfs' = {}
 
 -----------------------------------------------------------------------------
@@ -52,11 +52,11 @@ CurSp == content[si].sp
 (* the line was not dropped.  obs[j].v is the interned rendering; for an    *)
 (* occurrence left as it is ("kept", "self") it is the interned token text. *)
 Occ(toks, obs) == {j \in DOMAIN toks : /\ Group(toks[j].k) # "none" /\ DelimK(toks[j])
-                                       /\ MustHide(toks[j], cf, CurSp) /\ ~Competing(cf) /\ obs[j].st # "dropped"}
+                                       /\ Hidden(toks[j], cf, CurSp) /\ ~Competing(cf) /\ obs[j].st # "dropped"}
 (* occurrences that bind db: rewritten, or left alone because the text is an *)
 (* issued substitute (C08's exception clause).  A plain "kept" is NoLeak's.  *)
 Bind(toks, obs) == {j \in Occ(toks, obs) : obs[j].st \in {"sub", "other", "self"}}
-Strict(g) == g \in {"ip", "host", "mac"}
+Strict(g) == g \in {"ip", "ip6", "host", "mac"}
 FirstOf(toks, obs, p) == CHOOSE j \in Bind(toks, obs) : OrigOf(toks[j]) = p /\ \A i \in Bind(toks, obs) : OrigOf(toks[i]) = p => j <= i
 NewDb(toks, obs) ==
     LET new == {OrigOf(toks[j]) : j \in Bind(toks, obs)} \ DOMAIN db
@@ -163,6 +163,8 @@ Feat(g, occ) ==
     IF cf.fam = "collide" /\ sp2 THEN "original-equals-issued-substitute"
     ELSE IF cf.fam = "suffix" /\ g = "host" /\ sp2 THEN "name-is-suffix-of-another"
     ELSE IF cf.fam = "prefix" /\ g = "ip" /\ sp2 THEN "address-is-prefix-of-another"
+    ELSE IF cf.fam \in {"kwdom", "kwhost"} /\ g \in {"host", "kw"} THEN "keyword-inside-host-name"
+    ELSE IF cf.fam = "v6lb" /\ g = "ip6" THEN "address-after-bracket-caret-backtick"
     ELSE "plain"
 Sw == (IF cf.obf THEN "O" ELSE "o") \o (IF cf.host THEN "H" ELSE "h") \o (IF cf.mac THEN "M" ELSE "m")
 
